@@ -60,6 +60,25 @@ def read_all_paths(cont, root, key, data, hash_type, counters, where, rnd, full_
                 bad('meta.size', f'bulk meta size {m.size} != {len(data)}')
         if n != 1:
             bad('get_objects_stream_and_meta', f'{n} triplets for one key')
+    # the same reads through the other internal lookup strategy (ordered full scan instead of IN-chunks), selected by shadowing
+    # the threshold on a second handle
+    from disk_objectstore import Container  # pylint: disable=import-outside-toplevel
+
+    scan = Container(root)
+    scan._MAX_CHUNK_ITERATE_LENGTH = 0  # pylint: disable=protected-access
+    try:
+        if scan.get_objects_content([key]) != {key: data}:
+            bad('get_objects_content:full-scan', 'bulk read through the full-scan strategy differs from the stored bytes')
+        metas = dict(scan.get_objects_meta([key]))
+        if key not in metas or metas[key].size != len(data):
+            bad('meta.size:full-scan', f'size through the full-scan strategy is {getattr(metas.get(key), "size", None)} != {len(data)}')
+        with scan.get_objects_stream_and_meta([key]) as triplets:
+            for _k, stream, m in triplets:
+                if stream is None or stream.read() != data or m.size != len(data):
+                    bad('get_objects_stream_and_meta:full-scan', 'bulk stream/meta through the full-scan strategy differs')
+        counters['full-scan-strategy-reads'] += 1
+    finally:
+        scan.close()
     snap = rawread.Snapshot(root)
     raw, prob = snap.read_key(key)
     if raw != data:
